@@ -28,6 +28,7 @@ fn dispatch(prop: &str, ctx: &Ctx, replay: Option<&[String]>) -> bool {
     "C07" => p!(c07),
     "C08" => p!(c08),
     "C10" => p!(c10),
+    "C12" => p!(c12),
     _ => false,
   }
 }
